@@ -188,8 +188,13 @@ def run_scheduled(ns, fam, prog, chooser, line_level=False, hooks=True):
 
             def make(t):
                 def fn():
-                    for op in prog.threads[t]:
-                        results[t].append(_do(ns, objs, handles, op))
+                    for j, op in enumerate(prog.threads[t]):
+                        # operation boundaries in the trace (not scheduling points)
+                        sc.trace.append((sc.points, t, "op-start", j))
+                        try:
+                            results[t].append(_do(ns, objs, handles, op))
+                        finally:
+                            sc.trace.append((sc.points, t, "op-end", j))
                 return fn
             for t in range(len(prog.threads)):
                 sc.spawn(t, make(t))
@@ -417,6 +422,15 @@ def judge(prog, serial, run, profile):
         # contexts entered / left concurrently with other threads' operations: only the lock
         # discipline (C10) is claimed for such programs, not serial equivalence
         return v
+    if has_reader and shared_reader_object(prog):
+        # some root object is used by two threads and one of them reads through it: whatever
+        # goes wrong - also the buffer accounting - is the lock-free-read finding of C14
+        return [(("C14",), k, m) for _, k, m in _judge_rest(prog, serial, run, has_reader, prog_buffered)]
+    return v + _judge_rest(prog, serial, run, has_reader, prog_buffered)
+
+
+def _judge_rest(prog, serial, run, has_reader, prog_buffered):
+    v = []
     main = "C13" if prog_buffered else ("C14" if has_reader else "C09")
     if prog.buffered:
         if run["exit_error"] and not any(s["exit_error"] for s in serial):
@@ -445,7 +459,11 @@ def judge(prog, serial, run, profile):
                 got = run["results"][t][j] if j < len(run["results"][t]) else ("missing",)
                 allowed = {tuple(s["results"][t][j]) for s in serial}
                 if tuple(got) not in allowed:
-                    v.append((("C13", "C14"), "result:" + op[1], "T%d op %s returned %s; serially it returns one of %s" % (t, op, got, sorted(allowed))))
+                    # a read that completes with a value no serial order gives is C14's clause
+                    # ("returns a value the collection actually had"); an operation that fails, or
+                    # a mutator's wrong result, also concerns C13 ("completes without errors")
+                    props = ("C14",) if (op[1] not in MUTATORS and got[0] == "ok") else ("C13", "C14")
+                    v.append((props, "result:" + op[1], "T%d op %s returned %s; serially it returns one of %s" % (t, op, got, sorted(allowed))))
         return v
     if run["finals"] not in fins:
         v.append((("C14",) + (("C13",) if prog.buffered else ()), "lost-update", "final content %s is not the result of the writers in any serial order (a writer's update was lost or invented)" % run["finals"]))
@@ -487,6 +505,11 @@ def c14_signature(prog, run, viol_kind):
         # lose updates, return impossible values and raise from the unlocked merge in many ways;
         # all of them are ONE finding, identified by this call pattern, not by the symptom.
         return "C14:same-object:lock-free-read"
+    if prog.buffered and flush_into_reader(prog, run):
+        # a read (which takes no lock) through an object of its own, and DURING the read another
+        # thread's flush of that file merges the buffered contents into the very same object
+        # (`_flush` runs on every registered collection, whichever thread triggers it)
+        return "C14:buffered:flush-by-another-thread-during-lock-free-read"
     if prog.buffered and getattr(prog, "strategy", None) == "memory":
         # inside a shared-memory buffered context the objects bound to one file ARE one container:
         # the lock-free read races with the writer exactly as on a single object
@@ -497,6 +520,30 @@ def c14_signature(prog, run, viol_kind):
         base, _, opname = viol_kind.partition(":")
         return "C14:" + where + base + ":" + opname
     return "C14:" + where + _lost_update_mechanism(prog, run)
+
+
+def _file_of(prog, tgt):
+    oi = int(tgt[1:]) if tgt[0] == "o" else prog.handles[int(tgt[1:])][0]
+    return prog.objs[oi]
+
+
+def flush_into_reader(prog, run):
+    """does some thread's flush of file f fall inside another thread's read on an object bound to f?"""
+    tr = run.get("trace") or []
+    for t, ops in enumerate(prog.threads):
+        for j, op in enumerate(ops):
+            if op[1] in MUTATORS or op[1] in ("center", "cexit", "enter", "exit", "setfilename"):
+                continue
+            f = "r%d.json" % _file_of(prog, op[0])
+            inside = False
+            for e in tr:
+                if e[1] == t and e[2] == "op-start" and e[3] == j:
+                    inside = True
+                elif e[1] == t and e[2] == "op-end" and e[3] == j:
+                    inside = False
+                elif inside and e[1] != t and e[2] == "flush" and e[3] == f:
+                    return True
+    return False
 
 
 def _lost_update_mechanism(prog, run):
